@@ -171,6 +171,8 @@ def replay_sort(keys, order, cs, which):
     try:
         res = drv_alpha(keys) if which == "alpha" else drv_custom(keys, order, cs)
     except Exception as ex:  # noqa
+        from pysym.harness import guard_repo_exception
+        guard_repo_exception(ex)
         return {"input": [keys, order, cs], "observed": f"raised {type(ex).__name__}: {ex}", "expected": "sorted fields"}
     if which == "custom":
         folded = [o if cs else o.lower() for o in order]
@@ -194,6 +196,8 @@ def replay_norm(keys):
     try:
         res = drv_norm(keys)
     except Exception as ex:  # noqa
+        from pysym.harness import guard_repo_exception
+        guard_repo_exception(ex)
         return {"input": keys, "observed": f"raised {type(ex).__name__}: {ex}", "expected": "normalised fields"}
     if common(res) and res[0] == res[6] and res[1] == res[6]:
         return None
@@ -298,6 +302,8 @@ def task_reuse(lens, kind, cs=None):
         try:
             a, fa, b, c, fb = drv_reuse(ks, [k.swapcase() for k in ks], kind, order, cs)
         except Exception as ex:  # noqa
+            from pysym.harness import guard_repo_exception
+            guard_repo_exception(ex)
             return {"input": [ks, kind, cs], "observed": f"raised {type(ex).__name__}: {ex}", "expected": "no exception"}
         if a == fa and b == fb and c == fb:
             return None
@@ -339,6 +345,8 @@ def replay_seq(keys, seq):
     try:
         snaps, e, s, blocks = drv_seq(keys, seq)
     except Exception as ex:  # noqa
+        from pysym.harness import guard_repo_exception
+        guard_repo_exception(ex)
         return {"input": [keys, seq], "observed": f"raised {type(ex).__name__}: {ex}", "expected": "sorted / normalised after every step"}
     for name, snap in zip(seq, snaps):
         ks = [k for k, v in snap]
